@@ -18,22 +18,35 @@ from .. import common, corpus, gen17, harness, pipeline
 from .. import cparse as CP
 
 CHILD = r"""
-import sys, json, hashlib, os
+import sys, json, hashlib, os, io, contextlib
 sys.path.insert(0, sys.argv[1]); os.chdir(sys.argv[1])
-from lark import Lark
+with contextlib.redirect_stdout(io.StringIO()):
+    import rzilcompiler.Helper as H
+    H.LOG_LEVEL = -1
+    from rzilcompiler.Compiler import Compiler
+    from rzilcompiler.ArchEnum import ArchEnum
+    from rzilcompiler.Parser import InsnParsingBundle, parse_single
 texts = json.load(open(sys.argv[2]))
 mode = sys.argv[3]
 g = open(os.path.join(sys.argv[1], "Resources/Hexagon/grammar.lark")).read()
-def mk(): return Lark(g, start="fbody", parser="earley")
-p = mk()
-out = []
+# the repository's own parser objects: Compiler.parser (reused) and the per-task parser of parse_single (fresh)
+with contextlib.redirect_stdout(io.StringIO()):
+    comp = Compiler(ArchEnum.HEXAGON) if mode != "fresh" else None
 order = list(range(len(texts)))
 if mode == "reversed": order.reverse()
 res = {}
 for i in order:
-    if mode == "fresh": p = mk()
-    try: d = hashlib.sha256(p.parse(texts[i]).pretty().encode()).hexdigest()[:16]
-    except Exception as e: d = "EXC:" + type(e).__name__
+    try:
+        if mode == "fresh" and i >= int(sys.argv[4]):
+            res[i] = "SKIP"; continue
+        if mode == "fresh":
+            r = parse_single(InsnParsingBundle(g, "x", [texts[i]]))["x"]
+            if r.exception: raise RuntimeError(r.exception.name)
+            t = r.asts[0]
+        else:
+            t = comp.parser.parse(texts[i])
+        d = hashlib.sha256(t.pretty().encode()).hexdigest()[:16]
+    except Exception as e: d = "EXC:" + (str(e) if isinstance(e, RuntimeError) else type(e).__name__)
     res[i] = d
 print(json.dumps([res[i] for i in range(len(texts))]))
 """
@@ -70,14 +83,14 @@ def main(tier):
     texts += [("unary", t) for t in gen17.unary_matrix()]
     texts += [("token", t) for t in gen17.token_class_probes()]
     g = gen17.G17(rng)
-    nexpr, nstmt = (260, 90) if tier == "quick" else (6000, 2000)
+    nexpr, nstmt = (200, 70) if tier == "quick" else (6000, 2000)
     g.max_depth = 5 if tier == "quick" else 6
     for _ in range(nexpr):
         texts.append(("expr", f"{{ x {rng.choice(gen17.ASSIGN)} {g.expr(1)}; }}"))
     for _ in range(nstmt):
         texts.append(("stmt", "{ " + " ".join(g.stmt(rng.choice([1, 2, 3])) for _ in range(rng.randint(1, 3))) + " }"))
     beh = S.behaviors
-    names = corpus.stratified_sample(beh, 60 if tier == "quick" else 400, run.seed)
+    names = corpus.stratified_sample(beh, 45 if tier == "quick" else 400, run.seed)
     for nm in names:
         for b in beh[nm]:
             if len(b) < (400 if tier == "quick" else 900):
@@ -177,15 +190,22 @@ def main(tier):
                 run.violation(f"grammar accepts a string the C reference parser rejects ({r.get('e6_exc')}): `{t[:140]}`", {"kind": "accept", "text": t}, key=f"gaccept:{kind}")
 
     # ---- (2) determinism across processes / hash seeds / parser reuse
-    det_texts = [t for k, t in texts if k in ("pair", "unary")][:: (9 if tier == "quick" else 2)] + [t for k, t in texts if k in ("expr", "stmt")][: (30 if tier == "quick" else 400)]
+    det_texts = [t for k, t in texts if k in ("pair", "unary")][:: (12 if tier == "quick" else 2)] + [t for k, t in texts if k in ("expr", "stmt")][: (20 if tier == "quick" else 400)]
+    # texts whose derivation is ambiguous in the grammar (their tree may be the listed wrong one, but it must be the same everywhere)
+    det_texts += ["{ if (RsV) if (RtV) RdV = 1; else if (RuV) RdV = 2; else RdV = 3; }", "{ if (a) if (b) x = 1; else x = 2; }", "{ if (a) if (b) if (c) x = 1; else x = 2; else x = 3; }",
+                  "{ { x = 1; }; { y = 2; }; ; { z = 3; } }", "{ { a = 1; }; }", "{ if (a) { x = 1; }; else_ = 2; }", "{ for (i = 0; i < 2; i++) if (a) if (b) x = 1; else x = 2; }",
+                  "{ x = a ? b : c ? d : e ? f : g; }", "{ if (a) x = 1; else if (b) x = 2; else if (c) x = 3; else x = 4; }", "{ x = b-- & c; }", "{ x = f(); }", "{ {}; {}; }"]
+    det_texts += [t for k, t in texts if k == "corpus" and len(t) < 300][: (25 if tier == "quick" else 300)]
+    # ambiguous and corpus texts first: the 'fresh' child (one new parser per text) only takes a prefix in the quick tier
+    det_texts = det_texts[-37:] + det_texts[:-37]
     tmp = os.path.join(common.CACHE_DIR, f"c17-{os.getpid()}.json")
     os.makedirs(common.CACHE_DIR, exist_ok=True)
     json.dump(det_texts, open(tmp, "w"))
     procs = []
-    configs = [("0", "reused"), ("1", "reused"), ("7", "reversed"), ("12345", "fresh" if tier == "thorough" else "reused"), ("random", "reversed")]
+    configs = [("0", "reused"), ("1", "reused"), ("2", "reversed"), ("3", "fresh"), ("7", "reused"), ("random", "reversed")]
     for hs, mode in configs:
         env = dict(os.environ, PYTHONHASHSEED=hs)
-        procs.append((hs, mode, subprocess.Popen([sys.executable, "-c", CHILD, common.REPO, tmp, mode], env=env, stdout=subprocess.PIPE, stderr=subprocess.PIPE, text=True)))
+        procs.append((hs, mode, subprocess.Popen([sys.executable, "-c", CHILD, common.REPO, tmp, mode, "45" if tier == "quick" else "100000"], env=env, stdout=subprocess.PIPE, stderr=subprocess.PIPE, text=True)))
     digests = []
     for hs, mode, p in procs:
         try:
@@ -201,6 +221,8 @@ def main(tier):
         # in-process digest of the parent (reused parser, after hundreds of unrelated parses)
         for hs, mode, dg in digests[1:]:
             for i, (a, b) in enumerate(zip(base, dg)):
+                if "SKIP" in (a, b):
+                    continue
                 det_cases += 1
                 if a != b:
                     run.violation(f"tree of `{det_texts[i][:100]}` differs between processes (hash seed 0/reused vs {hs}/{mode})",
